@@ -420,11 +420,18 @@ func windingOrderIsCorrect(ring [][2]float64, shouldBeClockwise bool) bool {
 // TODO: rewrite by using intgeoms for as long as possible
 func isHitMultiple(hitMultiple map[intgeom.Point][]int, vertex [2]float64, ringIdx int) bool {
 	intVertex := intgeom.FromGeomPoint(vertex)
-	return slices.Contains(hitMultiple[intVertex], ringIdx) || // exact match
-		slices.Contains(hitMultiple[intgeom.Point{intVertex[xAx] + 1, intVertex[yAx]}], ringIdx) || // fuzzy search
-		slices.Contains(hitMultiple[intgeom.Point{intVertex[xAx] - 1, intVertex[yAx]}], ringIdx) ||
-		slices.Contains(hitMultiple[intgeom.Point{intVertex[xAx], intVertex[yAx] + 1}], ringIdx) ||
-		slices.Contains(hitMultiple[intgeom.Point{intVertex[xAx], intVertex[yAx] - 1}], ringIdx)
+	if slices.Contains(hitMultiple[intVertex], ringIdx) { // exact match
+		return true
+	}
+	// The vertex was made from an int point, but float -> int does not always give that int point back
+	// (it can be off on both axes, and by more than 1 for large coordinates). int -> float is deterministic,
+	// so compare in the float domain instead.
+	for intHitVertex, ringIdxs := range hitMultiple {
+		if intHitVertex.ToGeomPoint() == vertex && slices.Contains(ringIdxs, ringIdx) {
+			return true
+		}
+	}
+	return false
 }
 
 // split ring into multiple rings at any point where the ring goes through the point more than once
